@@ -73,12 +73,14 @@ type ValidateCall struct {
 	Hash    string
 	OK      bool
 	CtxErr  bool // context already cancelled at entry
+	GaveUp  bool // the context was cancelled while the call was in progress and the consumer returned nil without a verdict
 }
 
 type ProposalCall struct {
-	H       primitives.BlockHeight
-	BlockID string
-	CtxErr  bool
+	H               primitives.BlockHeight
+	BlockID         string
+	CtxErr          bool
+	CancelledDuring bool // the context was cancelled while the call was in progress (its result was produced under a cancelled context)
 }
 
 // BlockUtils is one node's consumer-side block logic.
@@ -92,6 +94,9 @@ type BlockUtils struct {
 	Proposals []ProposalCall
 	// AcceptAll makes this node's validator approve everything, even a missing block (a careless consumer: C12 only).
 	AcceptAll bool
+	// GiveUpOnCancel: a validation whose context is cancelled while it runs is abandoned - the consumer returns nil without having
+	// checked anything (what the repository's own pausable test consumer does). The library must not use such a result.
+	GiveUpOnCancel bool
 	// Reject, when set, lets a case make this node's validator reject additional blocks.
 	Reject func(b *Block) bool
 	// Proposed holds every block this node's RequestNewBlockProposal returned.
@@ -115,7 +120,7 @@ func (u *BlockUtils) RequestNewBlockProposal(ctx context.Context, h primitives.B
 	u.counter++
 	b := &Block{H: h, Ref: primitives.TimestampSeconds(1000 + uint32(h)), ID: fmt.Sprintf("%s/%d/%d", u.Me, h, u.counter), Prev: BlockID(prevBlock), Valid: true}
 	u.Proposed[b.ID] = b
-	u.Proposals = append(u.Proposals, ProposalCall{H: h, BlockID: b.ID, CtxErr: ctxErr})
+	u.Proposals = append(u.Proposals, ProposalCall{H: h, BlockID: b.ID, CtxErr: ctxErr, CancelledDuring: !ctxErr && ctx.Err() != nil})
 	return b, b.Hash()
 }
 
@@ -147,6 +152,12 @@ func (u *BlockUtils) ValidateBlockProposal(ctx context.Context, h primitives.Blo
 		u.gateHash = string(hash)
 		u.mu.Unlock()
 		u.Gate("validate", ctx, h)
+	}
+	if u.GiveUpOnCancel && !ctxErr && ctx.Err() != nil {
+		u.mu.Lock()
+		u.Validates = append(u.Validates, ValidateCall{H: h, BlockID: BlockID(block), Hash: string(hash), OK: false, GaveUp: true})
+		u.mu.Unlock()
+		return nil
 	}
 	err := ValidProposal(h, block, hash, prevBlock)
 	if u.AcceptAll {
